@@ -277,7 +277,10 @@ EXPECTED = _load("expected.json")
 for _pid, _P in PROPS.items():
     _P["kani"] = []
 for _name, _h in sorted(INDEX.items()):
-    if _h["prop"] in PROPS:
+    # a harness serves the property of its name and any property listed in its `// ALSO: Cnn` comment (a decision that two
+    # statements rest on, e.g. the certificate-chain step for C19 and C01)
+    for _p in [_h["prop"]] + list(_h.get("also") or []):
+      if _p in PROPS:
         _e = EXPECTED.get(_name, {})
-        PROPS[_h["prop"]]["kani"].append(dict(name=_name, tier=_h["tier"], kind=_h["kind"], bound=_h["bound"], expect=_h.get("expect"),
+        PROPS[_p]["kani"].append(dict(name=_name, tier=_h["tier"], kind=_h["kind"], bound=_h["bound"], expect=_h.get("expect"),
                                               obligations=_e.get("obligations", []), covers=_e.get("covers", [])))
